@@ -272,7 +272,11 @@ func (d *Decoder) readMap(dest reflect.Value) error {
 		SetValue(dest, r)
 		return nil
 	case _mapTypedTag:
-		d.readString(_tagRead)
+		// the type of a map takes a slot in the type table like the type of a list: later types given by
+		// back-reference count it
+		if _, err := d.readType(); err != nil {
+			return err
+		}
 	case _mapUntypedTag:
 		//do nothing
 	default:
